@@ -8,6 +8,6 @@ rmdir "$WT"
 git -C /repo worktree add -q --detach "$WT" "$BASE" || exit 2
 if ! git -C "$WT" apply "$PATCH"; then echo "PATCH DOES NOT APPLY"; git -C /repo worktree remove --force "$WT"; exit 2; fi
 for ID in "$@"; do
-  ( cd /verif && VERIF_REPO="$WT" timeout 1800 ./check "$ID" --tier "${TIER:-quick}" > "/tmp/mutrun-$ID.log" 2>&1; echo "check $ID exit=$? violations=$(grep -c '^VIOLATION' /tmp/mutrun-$ID.log)" )
+  ( cd /verif && VERIF_REPO="$WT" VERIF_EVIDENCE_DIR="${MUT_EVIDENCE:-/tmp/mut-evidence}" VERIF_WORK="${MUT_EVIDENCE:-/tmp/mut-evidence}/work" timeout 1800 ./check "$ID" --tier "${TIER:-quick}" > "/tmp/mutrun-$ID.log" 2>&1; echo "check $ID exit=$? violations=$(grep -c '^VIOLATION' /tmp/mutrun-$ID.log)" )
 done
 git -C /repo worktree remove --force "$WT"
